@@ -1,3 +1,209 @@
 // Package fx holds tiny known-bad and known-good functions used as positive and negative
 // controls for the checker's engines. It is never linked into anything.
 package fx
+
+import (
+	"bytes"
+	"errors"
+	"sync"
+)
+
+type S struct {
+	mu   sync.Mutex
+	rw   sync.RWMutex
+	tok  chan struct{}
+	n    int
+	seq  uint64
+	min  uint64
+	data []byte
+}
+
+var errX = errors.New("x")
+
+func work() error   { return nil }
+func syncIt() error { return nil }
+func setMeta() error { return nil }
+func publish()      {}
+func drop()         {}
+
+// ---- E-PAIR ----
+
+// BadLockLeak returns with mu held on the error exit.
+func (s *S) BadLockLeak() error {
+	s.mu.Lock()
+	if err := work(); err != nil {
+		return err
+	}
+	s.mu.Unlock()
+	return nil
+}
+
+// GoodLockDefer releases by defer.
+func (s *S) GoodLockDefer() error {
+	s.mu.Lock()
+	defer s.mu.Unlock()
+	if err := work(); err != nil {
+		return err
+	}
+	return nil
+}
+
+// GoodLockExplicit releases explicitly on every exit.
+func (s *S) GoodLockExplicit() error {
+	s.rw.RLock()
+	if err := work(); err != nil {
+		s.rw.RUnlock()
+		return err
+	}
+	s.rw.RUnlock()
+	return nil
+}
+
+// BadDoubleUnlock unlocks twice on one path.
+func (s *S) BadDoubleUnlock(b bool) {
+	s.mu.Lock()
+	if b {
+		s.mu.Unlock()
+	}
+	s.mu.Unlock()
+}
+
+// BadTokenLeak acquires the channel token and leaks it on the error exit.
+func (s *S) BadTokenLeak() error {
+	s.tok <- struct{}{}
+	if err := work(); err != nil {
+		return err
+	}
+	<-s.tok
+	return nil
+}
+
+// GoodToken releases on all exits.
+func (s *S) GoodToken() error {
+	s.tok <- struct{}{}
+	err := work()
+	<-s.tok
+	return err
+}
+
+// ---- E-ORD ----
+
+// BadOrder switches the pointer before syncing.
+func BadOrder() error {
+	if err := work(); err != nil {
+		return err
+	}
+	if err := setMeta(); err != nil {
+		return err
+	}
+	return syncIt()
+}
+
+// GoodOrder syncs first.
+func GoodOrder() error {
+	if err := work(); err != nil {
+		return err
+	}
+	if err := syncIt(); err != nil {
+		return err
+	}
+	return setMeta()
+}
+
+// BadSkipSync has a success path without the sync.
+func BadSkipSync(fast bool) error {
+	if err := work(); err != nil {
+		return err
+	}
+	if !fast {
+		if err := syncIt(); err != nil {
+			return err
+		}
+	}
+	publish()
+	return nil
+}
+
+// BadPublishOnError publishes although the sync failed.
+func BadPublishOnError() error {
+	err := syncIt()
+	publish()
+	return err
+}
+
+// GoodPublish publishes only after a successful sync.
+func GoodPublish() error {
+	if err := syncIt(); err != nil {
+		return err
+	}
+	publish()
+	return nil
+}
+
+// ---- E-GUARD ----
+
+// GoodGuard drops only under a<=m && (del && base()).
+func (s *S) GoodGuard(del bool, base func() bool) {
+	if s.seq <= s.min && del && base() {
+		drop()
+	}
+}
+
+// BadGuardWeakened lost one conjunct.
+func (s *S) BadGuardWeakened(del bool, base func() bool) {
+	if s.seq <= s.min && del {
+		drop()
+	}
+}
+
+// BadGuardOperator uses >= where <= is required.
+func (s *S) BadGuardOperator(del bool, base func() bool) {
+	if s.seq >= s.min && del && base() {
+		drop()
+	}
+}
+
+// GoodGuardStrengthened uses < where <= is required (accepted: stronger).
+func (s *S) GoodGuardStrengthened(del bool, base func() bool) {
+	switch {
+	case s.seq < s.min && del && base():
+		drop()
+	}
+}
+
+// ---- comparer discipline ----
+
+// BadRawCompare orders keys bytewise.
+func BadRawCompare(a, b []byte) bool { return bytes.Compare(a, b) < 0 }
+
+// BadStringCompare orders keys through string conversion.
+func BadStringCompare(a, b []byte) bool { return string(a) < string(b) }
+
+// ---- E-FLOW freshness ----
+
+// BadAlias returns a sub-slice of shared storage.
+func (s *S) BadAlias(i, j int) []byte { return s.data[i:j] }
+
+// GoodCopy returns a private copy.
+func (s *S) GoodCopy(i, j int) []byte { return append([]byte(nil), s.data[i:j]...) }
+
+// ---- E-ERR ----
+
+// BadDroppedError ignores the error of a durability call.
+func BadDroppedError() {
+	syncIt()
+	publish()
+}
+
+// ---- channel inventory ----
+
+// BadBlockingSend blocks forever if nobody listens.
+func (s *S) BadBlockingSend(c chan int) { c <- 1 }
+
+// GoodSelectSend has an exit.
+func (s *S) GoodSelectSend(c chan int, closeC chan struct{}) {
+	select {
+	case c <- 1:
+	case <-closeC:
+	}
+}
